@@ -198,7 +198,10 @@ def hostile_evaluation(ctx, case):
     ctx.check('the unsimplified matcher can be printed and evaluated', isinstance(str(matcher.parse(text)), str) and matcher.parse(text).matches(msg) in (True, False))
 
 
-ALPHABET = ['[', ']', '(', ')', ',', '!', '.', ':', '=', '@', '#', '"', '*', ' ', 'a', '5', 'n', '~', '-', 'é', '\x1b', '\\', '\t']
+ALPHABET = ['[', ']', '(', ')', ',', '!', '.', ':', '=', '@', '#', '"', '*', ' ', 'a', '5', 'n', '~', '-', 'é', '\x1b', '\\', '\t', '0', 'x', 'e', '+']
+
+
+CORE = ['(', ')', '[', ']', ',', '!', '=', '"', 'a', '0', 'x', '.', ':', '@']      # the structural core of the matcher alphabet, for one symbol more
 
 
 def short_texts(ctx, case):
@@ -207,8 +210,9 @@ def short_texts(ctx, case):
     logging.disable(logging.CRITICAL)
     from core import matcher
     from harness import ctl
-    first, n = case
-    rest = [ctx.choose(ALPHABET + [''], 'sym%d' % i) for i in range(n - 1)]
+    first, n = case[:2]
+    alphabet = ALPHABET if len(case) < 3 else CORE
+    rest = [ctx.choose(alphabet + [''], 'sym%d' % i) for i in range(n - 1)]
     # canonical form: '' only at the end (shorter strings)
     seen_empty = False
     for s in rest:
@@ -234,7 +238,7 @@ def short_texts(ctx, case):
         short_texts._w = ctl.make_world(None, 1, show_stub=False)
         ctl.add_message(short_texts._w, 0)
     w = short_texts._w
-    for cmd in ('', 'list ', 'filter ', 'breakpoint ', 'matcher ', 'connection ', 'help ', 'l', 'zz ', 'wl ', 'w ', 'wl', 'wlhelp ', 'wl w '):
+    for cmd in ('', 'list ', 'filter ', 'breakpoint ', 'matcher ', 'connection ', 'help ', 'l', 'zz ', 'wl ', 'wl'):
         n0, e0 = len(w.out.items), len(w.err.items)
         w.ctl.process_command(cmd + text)
         ctx.check('command `%s<text>` produces output or an error line' % cmd, len(w.out.items) + len(w.err.items) > n0 + e0 or (cmd + text).strip() in ('resume', 'quit', 'r', 'q') or
@@ -259,4 +263,6 @@ def obligations(tier):
            hostile_evaluation, cases=list(range(0, n_expr, step))),
         Ob('short-texts', 'symx', 'every matcher / command text of <= %d symbols over a %d-symbol alphabet' % (nsym, len(ALPHABET)), FUNCS[5:7], 'exhaustive: %d^%d strings' % (len(ALPHABET), nsym), short_texts,
            cases=[(a, nsym) for a in ALPHABET]),
+        Ob('short-texts-core', 'symx', 'every matcher / command text of <= %d symbols over the %d structural symbols' % (nsym + 1, len(CORE)), FUNCS[5:7], 'exhaustive: %d^%d strings' % (len(CORE), nsym + 1), short_texts,
+           cases=[(a, nsym + 1, 'core') for a in CORE]),
     ]
